@@ -608,6 +608,13 @@ def autoforwards_partial(par, args, kwargs):
     except ValueError:
         raise UnknownForwards
     sig = autoforwards(par.func, par.args, {})
+    real = _signatures.signature(par.func).parameters
+    for name in par.keywords or ():
+        if name in real and name in sig.parameters \
+                and sig.parameters[name].kind != real[name].kind:
+            # discovery made it positional-only: the keyword would be taken
+            # for one that goes to **kwargs
+            raise UnknownForwards
     try:
         return _signatures._mask(
             sig, len(par.args),
